@@ -482,6 +482,16 @@ def check_authorize(ctx):
                     m[1] == 'self.registered_rules':
                 reg.append((c, m[2]))
         if not reg:
+            from ..idioms import lookup_tries
+            for tr, key, coll in lookup_tries(prog, auth):
+                if key == auth.params[1] and coll == 'self.registered_rules':
+                    tag = 'try@%d' % tr.lineno
+                    hit = [c for c in p.conds if c.kind == 'exc'
+                           and 'KeyError' in str(getattr(c.expr, 'value', ''))
+                           and tag in str(getattr(c.expr, 'value', ''))]
+                    reg.append((hit[0] if hit else None, not hit))
+                    break
+        if not reg:
             ctx.ob('C07.AUTHORIZE', False, W, auth.qual, p.cond_text(),
                    'a path of authorize does not test registration of the '
                    'policy name')
